@@ -26,7 +26,13 @@ pub struct Rng(pub u64);
 
 impl Rng {
     pub fn new(seed: u64) -> Self {
-        Rng(seed.wrapping_mul(0x9E3779B97F4A7C15).wrapping_add(0xD1B54A32D192ED03))
+        // the state is the *output* of one SplitMix64 round, so that consecutive seeds give
+        // unrelated streams (a plain affine map of the seed would make seed k+1 the stream of
+        // seed k shifted by one draw)
+        let mut r = Rng(seed.wrapping_mul(0x9E3779B97F4A7C15).wrapping_add(0xD1B54A32D192ED03));
+        let a = r.next_u64();
+        let b = r.next_u64();
+        Rng(a ^ b.rotate_left(17))
     }
     pub fn next_u64(&mut self) -> u64 {
         self.0 = self.0.wrapping_add(0x9E3779B97F4A7C15);
